@@ -30,6 +30,7 @@ _nullary_table: dict[Callable, type[NullaryOp]] = {
 }
 
 _unary_table: dict[Callable, type[UnaryOp] | type[NamedUnaryOp]] = {
+    neg: Neg,
     abs: Abs,
     fabs: Abs,
     sqrt: Sqrt,
@@ -86,6 +87,7 @@ _binary_table: dict[Callable, type[BinaryOp] | type[NamedBinaryOp]] = {
     sub: Sub,
     mul: Mul,
     div: Div,
+    mod: Mod,
     copysign: Copysign,
     fdim: Fdim,
     fmod: Fmod,
